@@ -15,6 +15,14 @@ CLAIMS = {
          "Per-operation atomicity of every non-iterating operation of pkg/sync.Map and pkg/cache.Cache is proved structurally: each operation's accesses to the guarded map lie in one critical section of the one RWMutex (or it delegates to exactly one such operation), callbacks run in the documented lock context, Range callbacks only compare-and-act, and the expiry predicate/uses are the identity on live entries. With the meta-theorem 'single-critical-section operations on one lock linearize in acquisition order' this is the linearizability claim for those operations on every interleaving, which no finite set of schedules can show.",
          TRUST + "Meta-theorem and sync.RWMutex semantics are assumed, not checked. Range's whole-iteration atomicity is excluded by design (documented weakly consistent).",
          "DESIGN.md §4 C14"),
+ "C19": ("proof", "abstract interpretation of the codec on go/ssa (intervals × per-bit provenance × linear forms) over symbolic inputs + constant-table evaluation",
+         "The whole statement is decided for the whole domain without enumerating it: DecodeBlockOption/EncodeBlockOption are abstractly interpreted on symbolic 24-/32-bit inputs; acceptance/refusal is shown per input cell on every abstract path and the results' bits are shown to be exactly the RFC 7959 fields (so the two functions are mutual inverses), with no wrap or lossy conversion on the legal domain; the SZX size table is evaluated from the literal, shown single-writer, and BERT sizing is shown to be floor(max/1024)*1024.",
+         TRUST + "The abstract transfer functions (sound for Go fixed-width integers) are trusted. BERT sizing for max < 1024 is outside the claim.",
+         "DESIGN.md §4 C19"),
+ "C20": ("proof", "abstract interpretation of IsNoResponseCode over code-class × option-bit cells + dominance/value-flow rules for the wiring",
+         "The predicate is decided for every (code, option value) pair: 72 abstract cells (9 code ranges × 8 settings of bits 2/8/16, the other 29 bits unknown) are each shown to return non-nil exactly when RFC 7967 suppresses the class. The wiring that makes the predicate govern SetResponse (check before mutation, refusal returned, option 258 read from the whole request option list at every construction site, unmodified response = bare ACK or nothing) is decided by dominance and value-flow rules on every path.",
+         TRUST + "What is put on the wire by the transports after SetResponse refused is decided only structurally (unmodified-response arms), not by observing frames.",
+         "DESIGN.md §4 C20"),
 }
 
 REASON_NOT_BUILT = "static rules for this property are not built yet (see DESIGN.md Appendix B); not claimed rather than claimed thinly"
